@@ -282,6 +282,7 @@ def run(chk):
     t2s = load_program("tar2sqfs")
     t1_rule(chk, t2s)
     t2_rule(chk, t2s)
+    controls(chk)
     chk.floor("K1-validate", 6)
     chk.floor("K7", 45)
     chk.floor("K11-tarhdr", 1)
@@ -292,3 +293,15 @@ def run(chk):
     chk.floor("K7-strtrunc", 1)
     chk.floor("K12-sparse", 2)
     chk.floor("T2-short", 5)
+
+
+def controls(chk):
+    from ..controls import control_program
+    from ..report import Check
+    from ..strtrunc import run_strtrunc
+    prog = control_program("c04_controls.c")
+    sub = Check("C04-control", chk.tier)
+    run_strtrunc(sub, prog, "K7-strtrunc", lambda src: True)
+    got = {(o["rule"], o["function"]) for o in sub.obl if o["verdict"] == "VIOLATED"}
+    chk.control("K7-strtrunc", ("K7-strtrunc", "ctl_emit_bad") in got, "threshold '> sizeof(field)' in front of strncpy(.., sizeof - 1)")
+    chk.control("K7-strtrunc/silent", ("K7-strtrunc", "ctl_emit_good") not in got, "'>= 100' in front of the same copy must not be reported")
